@@ -149,7 +149,32 @@ class FlipDomain(Domain):
 
     def subscript(self, v, idx, node):
         if isinstance(v, FlipArr):
-            return v if not (isinstance(idx, Const) and isinstance(idx.v, int)) else Unknown('element')
+            if isinstance(idx, Const) and isinstance(idx.v, int):
+                return Unknown('element')
+            # x[::-1] reverses axis 0, x[:, ::-1] axis 1: the same group elements as flipud / fliplr
+            items = list(idx.items) if isinstance(idx, Tup) else [idx]
+            out, ax = v, 0
+            for x in items:
+                if isinstance(x, Const) and x.v is None:
+                    continue
+                if isinstance(x, Const) and x.v is Ellipsis:
+                    return v if len(items) == 1 else Unknown('subscript with an ellipsis among other indices')
+                if isinstance(x, Slice):
+                    st_ = x.step.v if isinstance(x.step, Const) else 'unknown'
+                    full = all(isinstance(z, Const) and z.v is None for z in (x.lo, x.hi))
+                    if st_ in (None, 1):
+                        pass
+                    elif st_ == -1 and full:
+                        if ax == 0:
+                            out = out.like(ud=out.ud ^ 1) if out.rank >= 2 else out.like(ud=out.ud ^ 1, lr=out.lr ^ 1)
+                        elif ax == 1 and out.rank >= 2:
+                            out = out.like(lr=out.lr ^ 1)
+                        else:
+                            return Unknown('reversal of an axis the flip model does not have')
+                    else:
+                        return Unknown('strided subscript')
+                ax += 1
+            return out
         return None
 
     def store_subscript(self, target, idx, val, node):
